@@ -10,7 +10,8 @@ from core import impl as I
 from props import C03 as B  # shared engine: histories on the real objects, wire format, comparison
 
 ID = "C14"
-LEAN_MODULES = ["AcnProofs.C14", "AcnProofs.Lemmas.CodeTieBattery"]
+LEAN_MODULES = ["AcnProofs.C14"]
+TIE_MODULES = ["AcnProofs.Lemmas.CodeTieBattery"]
 DRIVER = "drv_C14"
 REQUIRED_THEOREMS = [
     "Acn.C14.ideal_law", "Acn.C14.ideal_mono", "Acn.C14.zero_pilot", "Acn.C14.docRate_eq",
